@@ -400,6 +400,14 @@ class Run:
         if keys != sess:
             V("keys-view", "keys() = %r, curves carry %r %s" % (keys, sess, tag))
         want_sess = [c["sess"] for c in m]
+        if sess != want_sess and op and op[0] in ("delete_ix", "delete_mn") and len(sess) == len(want_sess):
+            # After a deletion the statement does not say whether the remaining members of the deleted item's family keep
+            # their (stale) suffixes or are renumbered: both are accepted for names that still fit ORIGINAL[:n]; the model adopts them.
+            for cc, ii in zip(m, items):
+                u = ii.useful_mnemonic
+                if cc["sess"] != ii.mnemonic and (ii.mnemonic == u or (ii.mnemonic.startswith(u + ":") and ii.mnemonic[len(u) + 1:].isdigit())):
+                    cc["sess"] = ii.mnemonic
+            want_sess = [c["sess"] for c in m]
         if sess != want_sess:
             V("session-names-vs-model", "keys() = %r, the list model (names numbered :1..:n after each insertion) says %r %s" % (keys, want_sess, tag))
             for cc, ii in zip(m, items):
